@@ -453,6 +453,28 @@ where
     std::mem::forget(mc1);
 }
 
+/// A validity set that holds an *alias* spelling (as the ARM/ARM64 unwinders insert: "r13", "x29", ...)
+/// makes exactly the canonical register show up in the enumerations and in get_register.
+pub fn check_valid_alias<C>(c: &C, wrap: fn(C) -> MinidumpRawContext, alias: &'static str, canon: &'static str)
+where
+    C: CpuContext + Clone,
+    C::Register: Into<u64> + Copy + PartialEq,
+{
+    let v = c.get_register_always(canon);
+    let mc = MinidumpContext { raw: wrap(c.clone()), valid: set1(alias) };
+    assert!(mc.get_register(canon) == Some(v.into()));
+    assert!(mc.get_register(alias) == Some(v.into()));
+    {
+        let mut it = mc.valid_registers();
+        let first = it.next();
+        assert!(first.is_some());
+        let (nm, vl) = first.unwrap();
+        assert!(nm == canon && vl == v.into());
+        assert!(it.next().is_none());
+    }
+    std::mem::forget(mc);
+}
+
 pub fn any_name_bytes<const L: usize>() -> [u8; L] {
     let buf: [u8; L] = kani::any();
     let mut i = 0;
